@@ -157,7 +157,7 @@ package value
 
 // Map methods in terms of the view
 //@ func (v Map) PutM
-//@   property C13
+//@   property C13, C09
 //@   safety C13
 //@   requires validStack(stack) && stack.size >= 3
 //@   ensures[keys] result1 == nil ==> (forall k string :: mhas(result0.m, k) == (mhas(v.m, k) || k == string(unbox(stackArg(stack, 1), String))))
@@ -356,8 +356,14 @@ package value
 //@   ensures result != nil
 //@   assigns nothing
 
+// Spare capacity: a list may have capacity behind its length only if nobody else can see those slots - the slice is
+// freshly allocated, or it is the result of the one in-place append of List.Append, which caps the parent at the same
+// time (ownership of the spare slots moves to the child; recorded by the ghost flag spareOwned).
+//@ ghost var spareOwned(r int) bool
+
 //@ func NewList
 //@   property C09
+//@   requires[no-foreign-spare-capacity] cap(items) == len(items) || fresh(items) || spareOwned(ref(items))
 //@   ensures[wraps-the-slice] result != nil && fresh(result) && result.itemsPresent && result.items == items && result.size == len(items) && result.iterable != nil
 //@   assigns nothing
 
@@ -386,8 +392,9 @@ package value
 //@   ensures[frame-kept] frameKeptV(st)
 //@   ensures[parent-kept] result1 == nil && old(l.itemsPresent) ==> sameItems(l)
 //@   ensures[parent-capped] result1 == nil ==> l.itemsPresent && cap(l.items) == len(l.items)
+//@   ghost-set "append(l.items" spareOwned(ref(newList)) = true
 //@   ensures[appended] result1 == nil ==> result0 != nil && fresh(result0) && result0.itemsPresent && len(result0.items) == len(l.items)+1 && (forall i in 0..len(l.items) :: result0.items[i] == l.items[i]) && result0.items[len(l.items)] == old(st.storage.data[st.offs+1])
-//@   assigns any List.items, any List.itemsPresent, any List.iterable, any funcGen.stackStorage[Value].data, any []Value
+//@   assigns any List.items, any List.itemsPresent, any List.iterable, any funcGen.stackStorage[Value].data, any []Value, any spareOwned
 
 //@ func (l *List) Size
 //@   property C07
@@ -408,3 +415,39 @@ package value
 //@   assigns any List.items, any List.itemsPresent, any List.iterable, any funcGen.stackStorage[Value].data, any []Value
 //@   loop 1 invariant 0 <= i && i <= j+1 && j == len(items)-1-i && fresh(items) && ref(items) != ref(l.items) && ref(items) != ref(st.storage.data) && l.itemsPresent && len(items) == len(l.items) && (old(l.itemsPresent) ==> sameItems(l)) && frameKeptV(st)
 //@   loop 1 invariant (forall k in 0..i :: items[k] == l.items[len(items)-1-k]) && (forall k in j+1..len(items) :: items[k] == l.items[len(items)-1-k]) && (forall k in i..j+1 :: items[k] == l.items[k])
+
+//@ func (l *List) Set
+//@   property C09, C07
+//@   safety C05
+//@   requires l != nil && validStack(st) && st.size >= 3
+//@   ensures[frame-kept] frameKeptV(st)
+//@   ensures[receiver-kept] old(l.itemsPresent) ==> sameItems(l)
+//@   ensures[one-element-replaced] result1 == nil ==> typeis(result0, *List) && fresh(unbox(result0, *List)) && unbox(result0, *List).itemsPresent && fresh(unbox(result0, *List).items) && len(unbox(result0, *List).items) == len(l.items) && typeis(old(st.storage.data[st.offs+1]), Int) && (forall k in 0..len(l.items) :: unbox(result0, *List).items[k] == ite(k == int(unbox(old(st.storage.data[st.offs+1]), Int)), old(st.storage.data[st.offs+2]), l.items[k]))
+//@   assigns any List.items, any List.itemsPresent, any List.iterable, any funcGen.stackStorage[Value].data, any []Value
+
+// windows are views on the receiver's storage: they must be capacity-capped (an append to a window would otherwise
+// overwrite the element of the receiver that follows the window)
+//@ func (l *List) MovingWindow
+//@   property C09
+//@   requires l != nil && validStack(st)
+//@   loop 1 invariant validStack(st)
+//@   loop 2 invariant (cap(mainList) == 0 || fresh(mainList)) && validStack(st)
+//@   loop 3 invariant (cap(mainList) == 0 || fresh(mainList)) && validStack(st)
+//@ func (l *List) MovingWindowRemove
+//@   property C09
+//@   requires l != nil && validStack(st)
+//@   loop 1 invariant (cap(mainList) == 0 || fresh(mainList)) && validStack(st)
+//@   loop 2 invariant (cap(mainList) == 0 || fresh(mainList)) && validStack(st)
+
+// Iteration with a callback: range-over-func / yield protocols are outside the verified subset. ASSUMED frame: Iter
+// itself writes nothing; what the callback writes is what the function literal passed by the caller writes (in the
+// callers below: only local variables of the caller, by reading).
+//@ interface-contract MapStorage.Iter
+//@   option no-impl-check
+//@   assigns nothing
+
+// '+' on maps builds a view on both operands and writes nothing that existed before
+//@ func (v Map) Merge
+//@   property C09
+//@   ensures[wrapper] result1 == nil ==> typeis(result0.m, MergeMap)
+//@   assigns nothing
